@@ -88,6 +88,31 @@ def numpy_to_blackbird(A, var_name):
     return script
 
 
+def _value_to_blackbird(v):
+    """Converts a scalar or (possibly nested) list value of an argument or
+    metadata option to Blackbird syntax.
+
+    Args:
+        v: bool, int, float, complex, str, SymPy expression, or a list of these
+
+    Returns:
+        str: the value as it would be written in a Blackbird script
+    """
+    if isinstance(v, (list, tuple)):
+        return "[{}]".format(", ".join(_value_to_blackbird(i) for i in v))
+
+    if isinstance(v, str):
+        return '"{}"'.format(v)
+
+    if isinstance(v, complex):
+        return "{}{}{}j".format(v.real, "+-"[int(v.imag < 0)], np.abs(v.imag))
+
+    if isinstance(v, sym.Expr):
+        return _expr_to_blackbird(v)
+
+    return "{}".format(v)
+
+
 def _expr_to_blackbird(expr):
     """Converts a SymPy expression to Blackbird syntax, wrapping every
     free parameter in braces.
@@ -360,10 +385,7 @@ class BlackbirdProgram:
                     # the expected syntax
                     option_strings = []
                     for k, v in data["options"].items():
-                        if not isinstance(v, str):
-                            option_strings.append("{}={}".format(k, v))
-                        else:
-                            option_strings.append('{}="{}"'.format(k, v))
+                        option_strings.append("{}={}".format(k, _value_to_blackbird(v)))
 
                     options = " ({})".format(", ".join(option_strings))
 
@@ -397,7 +419,7 @@ class BlackbirdProgram:
             if len(op["modes"]) == 1:
                 modes = op["modes"][0]
             else:
-                modes = op["modes"]
+                modes = "[{}]".format(", ".join(str(m) for m in op["modes"]))
 
             # check if the operation has any arguments
             if "args" in op:
@@ -475,6 +497,10 @@ class BlackbirdProgram:
                     elif isinstance(v, sym.Expr):
                         # kwarg contains free parameters
                         kwargs.append("{}={}".format(k, _expr_to_blackbird(v)))
+
+                    elif isinstance(v, (list, tuple)):
+                        # kwarg is a list of values
+                        kwargs.append("{}={}".format(k, _value_to_blackbird(v)))
 
                     else:
                         kwargs.append("{}={}".format(k, v))
